@@ -3,8 +3,10 @@ package main
 // Instruction-level reachability queries over the SSA control-flow graph.
 
 import (
+	"fmt"
 	"go/constant"
 	"go/token"
+	"go/types"
 	"regexp"
 	"sort"
 	"strings"
@@ -79,6 +81,8 @@ type Walker struct {
 	// TargetAt, if set, replaces the target predicate and also receives the predecessor block through which
 	// the instruction's block was entered on this path (nil at the start), to resolve phis edge-sensitively.
 	TargetAt func(in ssa.Instruction, path []*ssa.BasicBlock) bool
+	// StartFacts seeds the path facts (see phiNilFacts) when the walk starts in the middle of a path.
+	StartFacts string
 }
 
 // resolvePhi resolves v along a block path (path ends with the block that uses v): while v is a phi of a block on
@@ -138,7 +142,7 @@ func (w *Walker) Reach(fn *ssa.Function, start *ssa.BasicBlock, idx int, target 
 	}
 	seen := map[skey]bool{}
 	corr := correlatedConds(fn)
-	stack := []item{{start, idx, nil, nil, ""}}
+	stack := []item{{start, idx, nil, nil, w.StartFacts}}
 	first := true
 	for len(stack) > 0 {
 		it := stack[len(stack)-1]
@@ -203,11 +207,18 @@ func (w *Walker) Reach(fn *ssa.Function, start *ssa.BasicBlock, idx int, target 
 				cc = corr[iff]
 			}
 		}
+		if dec, known := phiNilDecision(it.b, it.facts); known && len(succs) == 2 {
+			if dec {
+				succs = succs[:1]
+			} else {
+				succs = succs[1:2]
+			}
+		}
 		for _, s := range succs {
 			if w.Removed[edge{it.b, s}] {
 				continue
 			}
-			facts := it.facts
+			facts := phiNilFacts(it.facts, it.b, s)
 			if cc != nil {
 				// truth of the canonical condition on this edge
 				truth := (s == it.b.Succs[0]) != cc.neg
@@ -439,7 +450,27 @@ func correlatedConds(fn *ssa.Function) map[*ssa.If]*corrCond {
 			continue
 		}
 		key, neg, ok := canonCond(iff.Cond)
-		if !ok || strings.Contains(key, "call:") || strings.Contains(key, "phi") || strings.Contains(key, "<-") || strings.Contains(key, "alloc:") || strings.Contains(key, "…") {
+		if !ok {
+			// the very same SSA value tested again: it has one dynamic value per execution of its defining
+			// block, so outside loops two tests of it on one path agree
+			v, n := iff.Cond, false
+			for {
+				if u, isNot := v.(*ssa.UnOp); isNot && u.Op == token.NOT {
+					v, n = u.X, !n
+					continue
+				}
+				break
+			}
+			if in, isInstr := v.(ssa.Instruction); isInstr {
+				if _, isPhi := v.(*ssa.Phi); !isPhi && in.Block() != nil && !inCycle(in.Block()) {
+					k := fmt.Sprintf("id:%p", v)
+					info[iff] = &corrCond{k, n}
+					byKey[k] = append(byKey[k], iff)
+				}
+			}
+			continue
+		}
+		if strings.Contains(key, "call:") || strings.Contains(key, "phi") || strings.Contains(key, "<-") || strings.Contains(key, "alloc:") || strings.Contains(key, "…") {
 			continue
 		}
 		stable := true
@@ -466,6 +497,123 @@ func correlatedConds(fn *ssa.Function) map[*ssa.If]*corrCond {
 	}
 	corrCache[fn] = out
 	return out
+}
+
+// ---- nil-ness of error phis ------------------------------------------------------------------------------
+// A phi that merges an error value records, per path, whether the incoming value is the literal nil or a
+// package-level error variable (non-nil by construction: errors.New / fmt.Errorf at package init). A later
+// `phi == nil` / `phi != nil` test on the same path is then decided. The fact is part of the walker's state key.
+
+func nilClass(v ssa.Value) (isNil, known bool) {
+	switch x := v.(type) {
+	case *ssa.Const:
+		if x.Value == nil {
+			return true, true
+		}
+	case *ssa.UnOp:
+		if x.Op == token.MUL {
+			if g, ok := x.X.(*ssa.Global); ok && (strings.HasPrefix(g.Name(), "Err") || strings.HasPrefix(g.Name(), "err")) {
+				return false, true
+			}
+		}
+	case *ssa.MakeInterface:
+		return false, true
+	}
+	return false, false
+}
+
+func phiNilFacts(facts string, from, to *ssa.BasicBlock) string {
+	idx := -1
+	for i, p := range to.Preds {
+		if p == from {
+			idx = i
+			break
+		}
+	}
+	if idx < 0 {
+		return facts
+	}
+	for _, in := range to.Instrs {
+		phi, ok := in.(*ssa.Phi)
+		if !ok {
+			break
+		}
+		if _, isIface := phi.Type().Underlying().(*types.Interface); !isIface || idx >= len(phi.Edges) {
+			continue
+		}
+		key := fmt.Sprintf("nil:%p", phi)
+		isNil, known := nilClass(phi.Edges[idx])
+		facts = factDel(facts, key)
+		if known {
+			facts = factAdd(facts, key, isNil)
+		}
+	}
+	return facts
+}
+
+// phiNilDecision: the block ends in `phi == nil` / `phi != nil` and the path knows the phi's nil-ness.
+func phiNilDecision(b *ssa.BasicBlock, facts string) (takeTrue, known bool) {
+	if len(b.Instrs) == 0 || facts == "" {
+		return false, false
+	}
+	iff, ok := b.Instrs[len(b.Instrs)-1].(*ssa.If)
+	if !ok {
+		return false, false
+	}
+	bo, ok := iff.Cond.(*ssa.BinOp)
+	if !ok || (bo.Op != token.EQL && bo.Op != token.NEQ) {
+		return false, false
+	}
+	var phi *ssa.Phi
+	if p, ok := bo.X.(*ssa.Phi); ok {
+		if k, ok := bo.Y.(*ssa.Const); ok && k.Value == nil {
+			phi = p
+		}
+	} else if p, ok := bo.Y.(*ssa.Phi); ok {
+		if k, ok := bo.X.(*ssa.Const); ok && k.Value == nil {
+			phi = p
+		}
+	}
+	if phi == nil {
+		return false, false
+	}
+	kn, isNil := factLookup(facts, fmt.Sprintf("nil:%p", phi))
+	if !kn {
+		return false, false
+	}
+	return isNil == (bo.Op == token.EQL), true
+}
+
+func factDel(facts, key string) string {
+	if !strings.Contains(facts, "\x00"+key+"\x01") {
+		return facts
+	}
+	var keep []string
+	for _, p := range strings.Split(facts, "\x02") {
+		if !strings.HasPrefix(p, "\x00"+key+"\x01") {
+			keep = append(keep, p)
+		}
+	}
+	return strings.Join(keep, "\x02")
+}
+
+// inCycle: the block can reach itself.
+func inCycle(b *ssa.BasicBlock) bool {
+	seen := map[*ssa.BasicBlock]bool{}
+	stack := append([]*ssa.BasicBlock{}, b.Succs...)
+	for len(stack) > 0 {
+		x := stack[len(stack)-1]
+		stack = stack[:len(stack)-1]
+		if x == b {
+			return true
+		}
+		if seen[x] {
+			continue
+		}
+		seen[x] = true
+		stack = append(stack, x.Succs...)
+	}
+	return false
 }
 
 func factLookup(facts, key string) (known, val bool) {
